@@ -1,4 +1,4 @@
-"""C01 / C02 on the implementation's own rows of one Buffer or Fleet EDGE history (harness/tbuffer.py,
+"""C01 / C02 / C04 on the implementation's own rows of one Buffer or Fleet EDGE history (harness/tbuffer.py,
 harness/tfleet.py): the edge classes wrap the stores (can_put / can_get / occupancy / get_items ...), so the
 store-level properties must also survive every call sequence that goes through the edge object.
 
@@ -39,6 +39,13 @@ def check(case, micro, rows):
         if len(items) + len(ready) + len(_ids(r.get("putres"))) > cap:
             out.append(("C01", i, "edge holds %d items and %d granted space reservations, capacity %d" %
                         (len(items) + len(ready), len(_ids(r.get("putres"))), cap)))
+        putq, getq = _ids(r.get("putq")), _ids(r.get("getq"))
+        if putq and len(items) + len(ready) + len(_ids(r.get("putres"))) < cap:
+            out.append(("C04", i, "space request(s) %s waiting on the edge with %d free, unreserved place(s)" %
+                        (putq, cap - len(items) - len(ready) - len(_ids(r.get("putres"))))))
+        if getq and len(ready) > len(_ids(r.get("getres"))):
+            out.append(("C04", i, "retrieval request(s) %s waiting on the edge with %d available, unreserved item(s)" %
+                        (getq, len(ready) - len(_ids(r.get("getres"))))))
         inside = Counter(items) + Counter(ready)
         if inside != put - got:
             out.append(("C02", i, "edge holds %s after %s, the puts and gets so far leave %s inside" %
